@@ -101,7 +101,7 @@ class Controller:
             self.done[i] = True
             self.yielded.release()
 
-    def run(self, fns, schedule):
+    def run(self, fns, schedule, drain_order=None):
         ths = [threading.Thread(target=self.worker, args=(i, fn)) for i, fn in enumerate(fns)]
         started = [False] * self.n
         used = []
@@ -118,7 +118,7 @@ class Controller:
             used.append(tid)
         # drain: remaining threads one after the other
         self.free_run = True
-        for tid in range(self.n):
+        for tid in (drain_order or range(self.n)):
             if not started[tid]:
                 started[tid] = True
                 ths[tid].start()
@@ -227,6 +227,82 @@ def run_mixed_promotion(nthreads, schedule):
     fns = [(lambda v=v: pformat(v)) for v in vals]
     results, used = ctl.run(fns, schedule)
     return results, ref
+
+
+class _Lit:
+    def __init__(self, text):
+        self.text = text
+
+
+def _cold_values(tag):
+    """values whose classes have never been printed in this process (first-use paths: lazy promotion,
+    classification of tuple subclasses, ...), and the texts they must print as"""
+    import collections
+    from prettyprinter import register_pretty, is_registered, pformat
+    if not is_registered(_Lit):
+        @register_pretty(_Lit)
+        def _pl(value, ctx):
+            return value.text
+    base, cls = fresh_lazy_class(0)
+
+    def nt():
+        c = collections.namedtuple('PointNT' + tag, ['x', 'y'])
+        c.__module__ = 'sched'
+        return c
+    real, twin = nt(), nt()
+    sub = type('TupleSub' + tag, (tuple,), {})
+    sub.__module__ = 'sched'
+    sub.__qualname__ = sub.__name__
+    sub2 = type('TupleSub' + tag, (tuple,), {})
+    sub2.__module__ = 'sched'
+    sub2.__qualname__ = sub2.__name__
+    val = [real(1, [2]), cls(0), KeyError('k'), sub((3, 4)), {'s': 'x' * 20}]
+    expected = pformat([twin(1, [2]), _Lit('sched.%s(0)' % cls.__qualname__), KeyError('k'), sub2((3, 4)), {'s': 'x' * 20}],
+                       width=200)
+    return val, expected
+
+
+def preemption_points(counter=[0]):
+    """the trace of one solo print of cold values: indices (into the sequence of line events of the package) at
+    which a (file, line) pair is executed for the first time"""
+    counter[0] += 1
+    val, _exp = _cold_values('S%d' % counter[0])
+    seen, firsts, n = set(), [], [0]
+    import os as _os
+    L = sys.modules.get('prettyprinter.layout') or __import__('prettyprinter.layout', fromlist=['x'])
+    pkg_dir = _os.path.dirname(L.__file__) + _os.sep
+    from prettyprinter import pformat
+
+    def local(frame, event, arg):
+        if event == 'line':
+            key = (frame.f_code.co_filename, frame.f_lineno)
+            if key not in seen:
+                seen.add(key)
+                firsts.append(n[0])
+            n[0] += 1
+        return local
+
+    def glob(frame, event, arg):
+        return local if event == 'call' and frame.f_code.co_filename.startswith(pkg_dir) else None
+    sys.settrace(glob)
+    try:
+        pformat(val, width=200)
+    finally:
+        sys.settrace(None)
+    return firsts, n[0]
+
+
+def run_single_preemption(k, counter=[0]):
+    """thread 0 executes k package lines of a print of cold values, then thread 1 prints ITS cold values
+    (same classes) to the end, then thread 0 finishes -> (results, expected texts)"""
+    from prettyprinter import pformat
+    counter[0] += 1
+    val, expected = _cold_values('R%d' % counter[0])
+    ctl = Controller(2, region='all')
+    fns = [(lambda: pformat(val, width=200)), (lambda: pformat(val, width=200))]
+    # thread 0 is gated for its first k lines only; then thread 1 runs freely to its end, then thread 0
+    results, used = ctl.run(fns, [0] * k, drain_order=[1, 0])
+    return results, [expected, expected]
 
 
 def bounded_schedules(nthreads, max_run, switches):
